@@ -182,6 +182,31 @@ def h_isolation(ctx, sub, other):
     ctx.holds("decoded report finds its telecommand", res is not None and res.status is v.verif_dict[rb])
 
 
+def h_after_cleanup(ctx, sub_first, sub_after):
+    """a finished telecommand is cleaned up; later reports for its request id find nothing; re-registering starts afresh"""
+    tc, other = mk_tc(), mk_tc(apid=0x23)
+    v = PusVerificator()
+    v.add_tc(tc)
+    v.add_tc(other)
+    rid = RequestId.from_pus_tc(tc)
+    for s in (1, 3):
+        v.add_tm(mk_report(ctx, s, tc, "pre%d" % s)[0])
+    res = v.add_tm(mk_report(ctx, sub_first, tc, "fin")[0])
+    ctx.holds("completion report finishes the sequence", res is not None and res.status.all_verifs_recvd == True)  # noqa: E712
+    v.remove_completed_entries()
+    ctx.holds("finished entry removed, the other kept", rid not in v.verif_dict and RequestId.from_pus_tc(other) in v.verif_dict
+              and len(v.verif_dict) == 1)
+    res2 = v.add_tm(mk_report(ctx, sub_after, tc, "late")[0])
+    ctx.holds("a report for a removed telecommand yields no result", res2 is None)
+    ctx.holds("...and does not resurrect the entry", rid not in v.verif_dict and len(v.verif_dict) == 1)
+    ctx.holds("re-registering the telecommand is accepted", v.add_tc(mk_tc()) == True)  # noqa: E712
+    res3 = v.add_tm(mk_report(ctx, 1, tc, "again")[0])
+    st = v.verif_dict[rid]
+    ctx.holds("the re-registered telecommand starts from a fresh status", res3 is not None and res3.status is st and sym_and(
+        st.accepted == 1, st.started == -1, st.step == -1, st.completed == -1, len(st.step_list) == 0, st.all_verifs_recvd == False))  # noqa: E712
+    ctx.holds("remove_entry then report: no result", v.remove_entry(rid) == True and v.add_tm(mk_report(ctx, 3, tc, "gone")[0]) is None)  # noqa: E712
+
+
 def h_remove_completed(ctx):
     tcs = [mk_tc(), mk_tc(apid=0x23), mk_tc(sc=8)]
     v = PusVerificator()
@@ -214,5 +239,9 @@ def cases(tier):
     for subs in itertools.product(range(1, 9), repeat=depth):
         cs.append(Case("history-" + "".join(map(str, subs)), "history", h_fresh_sequence, dict(subs=subs),
                        bounds="history %s from a fresh tracker (cross-check of the induction)" % (subs,)))
+    for sub_first in (7, 8):
+        for sub_after in tier_pick(tier, (1, 7), tuple(range(1, 9))):
+            cs.append(Case("cleanup-%d-then-%d" % (sub_first, sub_after), "remove", h_after_cleanup, dict(sub_first=sub_first, sub_after=sub_after),
+                           bounds="finish with subservice %d, remove completed, then report %d for the same request id" % (sub_first, sub_after)))
     cs.append(Case("remove-completed", "remove", h_remove_completed, {}, bounds="three entries, all 2^3 finished-flag assignments"))
     return cs
